@@ -20,6 +20,19 @@ CHECKS = {
         "in-memory transport models (sim/) stand in for sockets; h2 library builds client frames",
         "DESIGN.md §4 C01",
     ),
+    "C02": (
+        "exploration",
+        "Hypothesis-generated response programs x protocols x client pace on virtual-time asyncio "
+        "and trio simulators; oracle = own strict HTTP/1 response parser (h11 client as second "
+        "opinion) and own HTTP/2 frame/HPACK accounting",
+        "Every generated application response (status 200-599, header lists, chunkings up to "
+        "several windows, early hints, trailers) must be recovered identically by an independent "
+        "client parser on HTTP/1.0, 1.1, 2 and h2c under paused, dribbling, late and "
+        "connection-only acknowledgement; bodies suppressed exactly for HEAD/204/304; trailers "
+        "only on HTTP/2 with te: trailers.",
+        "applications obey ASGI; in-memory transport models; 'only if' direction for trailers",
+        "DESIGN.md §4 C02",
+    ),
     "C19": (
         "exploration",
         "Hypothesis property tests (loader agreement, CLI flag table, bind sockets, IMF-fixdate "
